@@ -225,6 +225,57 @@ func checkNames(f *sfnt.Font, got []string) error {
 	return nil
 }
 
+// addRichLigatures appends a ligature lookup with long ligature sets: two to
+// five ligatures per first glyph, two to five components each, consecutive
+// ligatures of a set often sharing a prefix of their components (as f_f_i,
+// f_f_l, f_i do), so that ligatures which cannot be named (a component
+// without a name, an output that has one already) stand between ligatures
+// which can.
+func addRichLigatures(t *rapid.T, f *sfnt.Font) {
+	n := f.NumGlyphs()
+	gid := rapid.Custom(func(t *rapid.T) glyph.ID { return glyph.ID(rapid.IntRange(0, n-1).Draw(t, "g")) })
+	firsts := rapid.SliceOfNDistinct(gid, 1, 3, rapid.ID[glyph.ID]).Draw(t, "ligFirsts")
+	sub := &gtab.Gsub4_1{Cov: map[glyph.ID]int{}}
+	sorted := append([]glyph.ID{}, firsts...)
+	for i := range sorted {
+		for j := i + 1; j < len(sorted); j++ {
+			if sorted[j] < sorted[i] {
+				sorted[i], sorted[j] = sorted[j], sorted[i]
+			}
+		}
+	}
+	for i, g := range sorted {
+		sub.Cov[g] = i
+		var set []gtab.Ligature
+		seen := map[string]bool{}
+		var prev []glyph.ID
+		for k := rapid.IntRange(2, 5).Draw(t, "setLen"); k > 0; k-- {
+			var in []glyph.ID
+			if len(prev) > 0 && rapid.IntRange(0, 2).Draw(t, "sharePrefix") != 0 {
+				keep := rapid.IntRange(0, len(prev)).Draw(t, "prefixLen")
+				in = append(in, prev[:keep]...)
+			}
+			want := rapid.IntRange(1, 4).Draw(t, "nComponents")
+			for len(in) < want {
+				in = append(in, gid.Draw(t, "component"))
+			}
+			key := fmt.Sprint(in)
+			if seen[key] {
+				continue
+			}
+			seen[key] = true
+			set = append(set, gtab.Ligature{In: in, Out: gid.Draw(t, "ligOut")})
+			prev = in
+		}
+		sub.Repl = append(sub.Repl, set)
+	}
+	if f.Gsub == nil {
+		f.Gsub = &gtab.Info{}
+	}
+	f.Gsub.LookupList = append(f.Gsub.LookupList, &gtab.LookupTable{
+		Meta: &gtab.LookupMetaInfo{LookupType: 4}, Subtables: []gtab.Subtable{sub}})
+}
+
 func opts() genfont.Opts {
 	return genfont.Opts{MaxGlyphs: 20, MinGlyphs: 1, Names: genfont.NamesWild, Layout: genfont.LayoutMaybe, NoWideCmap: true}
 }
@@ -234,6 +285,10 @@ func TestC20MakeGlyphNames(t *testing.T) {
 		c := genfont.Gen(opts()).Draw(t, "font")
 		f := c.Font
 		f.Gpos, f.Gdef = nil, nil
+		if f.NumGlyphs() >= 3 && rapid.IntRange(0, 1).Draw(t, "richLigatures") == 0 {
+			addRichLigatures(t, f)
+			c.Labels = append(c.Labels, "rich-ligatures")
+		}
 		orig := originalNames(f)
 		ctx := func() string {
 			return fmt.Sprintf("original names %q\n%s\nrules %v", orig, c, rulesOf(f))
